@@ -255,21 +255,10 @@ def run(ctx):
 
     # ---------------------------------------------------------------- R5
     bi = md.func("Molecular_Dynamics_Basic.initialize")
-    g = build_cfg(bi)
-    raises = [n for n in g.nodes if n.kind == "stmt" and isinstance(n.stmt, ast.Raise) and "COM" in norm(n.stmt)]
-    ok = False
-    if raises:
-        ctrl = controlling(md, raises[0].stmt)
-        ok = any(p and isinstance(a, ast.Compare) and isinstance(a.ops[0], ast.NotIn) and norm(a.left) == "mode"
-                 and {e.value for e in a.comparators[0].elts if isinstance(e, ast.Constant)} == {"linear", "angular"} for a, p, _ in ctrl)
-        sd = [n.id for n in g.nodes if n.kind == "stmt" and any(callee_attr(c) == "set_dof" for c in calls_in(n.stmt))]
-        ok = ok and sd and all(g.must_pass(g.entry, s, {x.id for x in g.nodes if x.kind == "if" and "mode not in" in norm(x.expr)} |
-                                           {x.id for x in g.nodes if x.kind == "if" and norm(x.expr) == "self.do_remove_com"}) for s in sd)
-    ctx.check(bool(ok), "R5", md, bi, "Molecular_Dynamics_Basic.initialize", "mode not in ('linear','angular') -> raise",
-              "unknown COM removal mode raises before anything is computed", "COM mode validation missing or not a raise on exactly ('linear','angular')")
-    ang = [st for st in ast.walk(bi) if isinstance(st, ast.Assign) and norm(st.targets[0]) == "self.remove_com_angular"]
-    ctx.check(bool(ang) and norm(ang[0].value).replace(" ", "") == "mode=='angular'", "R5", md, bi, "Molecular_Dynamics_Basic.initialize", "remove_com_angular",
-              "angular removal iff mode == 'angular'", "remove_com_angular no longer follows the mode")
+    from ..assembly import com_setup_verdicts
+    cv = com_setup_verdicts(repo)
+    ctx.check(cv["validation"][0], "R5", md, bi, "Molecular_Dynamics_Basic.initialize", "remove_com validation", cv["validation"][1], cv["validation"][1])
+    ctx.check(cv["mode"][0], "R5", md, bi, "Molecular_Dynamics_Basic.initialize", "remove_com_angular", cv["mode"][1], cv["mode"][1])
     # periodic removal in run()
     for c in calls_in(rn):
         if callee_attr(c) == "_zero_com":
